@@ -343,8 +343,8 @@ class Run:
     def do_s2f35(self):
         rng = self.ctx.rng
         m = self.m
-        kind = rng.choice(["link", "link", "link", "unknown_ceid", "undefined_report", "already_linked", "unlink", "append", "dup_report",
-                           "dup_ceid", "multi_ok"])
+        kind = rng.choice(["link", "link", "link", "unknown_ceid", "undefined_report", "undefined_report", "already_linked", "unlink", "append",
+                           "dup_report", "dup_ceid", "multi_ok"])
         have = list(m.reports)
         unlinked = [c for c in CEIDS if not m.links.get(c)]
         linked = [c for c in CEIDS if m.links.get(c)]
@@ -353,11 +353,15 @@ class Run:
             entries = [(rng.choice(unlinked), rng.sample(have, rng.randint(1, len(have))))]
         elif kind == "unknown_ceid":
             entries = [(UNKNOWN_CEID, rng.sample(have, 1) if have and rng.random() < 0.7 else [])]
-        elif kind == "undefined_report" and unlinked:
+        elif kind == "undefined_report":
             undefined = [r for r in RPTIDS if r not in m.reports]
             if not undefined:
                 return
-            entries = [(rng.choice(unlinked), [rng.choice(undefined)] + (rng.sample(have, 1) if have else []))]
+            # also for an event that already has links: an undefined report must be refused whatever else is in the request
+            target = rng.choice(CEIDS)
+            extra = [r for r in have if r not in m.links.get(target, [])]
+            entries = [(target, ([rng.choice(extra)] if extra and rng.random() < 0.5 else []) + [rng.choice(undefined)])]
+            rng.shuffle(entries[0][1])
         elif kind == "already_linked" and linked:
             c = rng.choice(linked)
             entries = [(c, [rng.choice(m.links[c])])]
@@ -514,7 +518,7 @@ def run(ctx):
     for i in range(n):
         run_ = Run(ctx)
         if not run_.ok:
-            ctx.violation("cannot-establish-communication", {"comm": run_.rig.comm_state})
+            ctx.unsure("precondition failed: the handler did not reach COMMUNICATING with a cooperative peer (C07/C20 judge that)")
             run_.rig.shutdown()
             continue
         for _ in range(ctx.rng.randint(6, length)):
